@@ -10,8 +10,3 @@ INVARIANT Symmetric
 INVARIANT KernelLaws
 INVARIANT CallAccepts
 INVARIANT CallPoolLaws
-INVARIANT LazyEnds
-INVARIANT LazyIsShort
-INVARIANT LazyPatternsRestart
-INVARIANT LazyConserves
-INVARIANT LazyGeneratorDies
